@@ -939,6 +939,8 @@ def errors(source, model, wcshelper):
         source.err_pa = abs(
             bear(ref[0], ref[1], off1[0], off1[1])
             - bear(ref[0], ref[1], off2[0], off2[1]))
+        if not np.isfinite(source.err_pa):
+            source.err_pa = ERR_MASK
     else:
         source.err_pa = ERR_MASK
 
@@ -959,6 +961,9 @@ def errors(source, model, wcshelper):
             [xo + err_sy * cc2fwhm * np.cos(np.radians(theta + 90)),
              yo + err_sy * cc2fwhm * np.sin(np.radians(theta + 90))])
         source.err_b = gcd(ref[0], ref[1], offset[0], offset[1]) * 3600
+        # huge pixel errors (singular fits) can land off the sky
+        if not all(np.isfinite([source.err_a, source.err_b])):
+            source.err_a = source.err_b = ERR_MASK
     else:
         source.err_a = source.err_b = ERR_MASK
 
